@@ -97,6 +97,13 @@ CHECKS = {
         note="Same trusted base as C17; the end-to-end reference evaluator is validated against TLC on every Sample case.",
         ref="DESIGN.md 3.6, 4 C04",
     ),
+    "C16": dict(
+        engine="RandomGen+RandomWindow",
+        technique="TLC model checking of spec/RandomGen.tla (generator re-seeding and RandomReader / from_random size bookkeeping, random stream abstracted to tokens) and spec/RandomWindow.tla (cylindrical equal-area sampling on an exact rational grid); every enumerated history replayed on the real BoxRandoms / HealPixRandoms / RandomReader / Catalog.from_random with bit-exact comparison against a brand-new generator; recorded operation logs validated by TLC (RandomGenTrace)",
+        text="TLC checks ExactSize, ReseedAtPassStart, Reproducible, ReseedRestores, SeedControlled, CreateNeverRejected and termination over all histories of <=4 (quick) / <=5 (thorough) public operations and over a size sweep of N x chunksize x patch_num x probe_size; seven named deviations each yield a counterexample. Every history (9k / 207k) is executed on the real library; each output is compared bit-exactly with its token realised on a brand-new generator; exact count, footprint and joint (weight, redshift) source row are the predicates. 100 grid windows (poles, RA<0, RA>360) are drawn and compared with TLC's exact cell fractions at 6 sigma; random long operation logs are validated by RandomGenTrace, a corrupted log is rejected.",
+        note="'Uniformly distributed in area' is statistical: decided only against gross deviations (6 sigma on 1e5/1e6 points per window), fine-scale uniformity and independence are not decided. numpy's Generator is trusted to be a deterministic function of its SeedSequence; harness/fakehealpy.py stands in for healpy (not installed) and is self-tested.",
+        ref="DESIGN.md 3.3, 4 C16",
+    ),
 }
 
 NOT_YET = "machinery for this property is not built yet in this round (planned, see DESIGN.md section 10)"
